@@ -13,7 +13,7 @@ from .. import windows, model, progs
 
 rs = bootstrap()
 
-PREDS = ['div:%d', 'divt:%d', 'divs:%d', 'divbig:%d', 'divpar:%d', 'divhuge:%d', 'divf:%d']
+PREDS = ['div:%d', 'divt:%d', 'divs:%d', 'divbig:%d', 'divpar:%d', 'divhuge:%d', 'divf:%d', 'divnp:%d', 'divnpf:%d', 'divbool:%d', 'divcent:%d', 'divnone:%d']
 
 
 def expected_segments(xs, pred):
@@ -48,11 +48,11 @@ class C06(Check):
     BUDGET = {'quick': 30, 'thorough': 240}
     RULE = ('case = (predicate, stream, parent context). Box: EVERY composition of n <= 9 (quick) / 11 (thorough) into run lengths, runs drawn from 3 predicate '
             'blocks so a value can come back later (A,B,A = three segments), x 5 predicates returning fresh equal-but-not-identical objects (int, 1-tuple, str, '
-            'int > 2^40, int > 2^53 whose neighbours round to the same double, float, parity); then random long inputs under group_by with interleaved keys, nested in roll (w != s, w == s), split, time_split, group_by>roll. '
+            'int > 2^40, int > 2^53 whose neighbours round to the same double, float, numpy.int64 / numpy.float64 (whose != returns numpy.bool_), bool, None / int mix, negative ints, parity); then random long inputs under group_by with interleaved keys, nested in roll (w != s, w == s), split, time_split, group_by>roll. '
             'non-trivial = some key lifetime has >= 2 segments; distinct = hash of the case')
     ASSUMPTIONS = ['predicate values are compared with != only (no hashing)']
     ANCHORS = ['rxsci/data/split.py', 'rxsci/operators/multiplex.py']
-    REQUIRED_TAGS = ['top', 'group', 'roll', 'roll_eq', 'split', 'pred=divt', 'pred=divs', 'pred=divbig', 'pred=divhuge', 'single-run', 'runs-of-1', 'empty-key']
+    REQUIRED_TAGS = ['top', 'group', 'roll', 'roll_eq', 'split', 'pred=divt', 'pred=divs', 'pred=divbig', 'pred=divhuge', 'pred=divnp', 'pred=divbool', 'pred=divnone', 'single-run', 'runs-of-1', 'empty-key']
     REQUIRED_OBSERVED = ['child_lifetimes_checked', 'parent_lifetimes_checked']
 
     def generate(self, rng, tier, shard, nshards):
